@@ -57,6 +57,15 @@ CHECKS.update({
                 ref='3 C16', note='Trusted: the validator and the shape builder in harness/avl.c (the builder is itself validated on every shape), gcc ASan/UBSan. The comparator is a strict total order on distinct integer keys.'),
 })
 
+CHECKS.update({
+    'C17': dict(cat='exploration', tech='position-coded byte stream verified at the output peer; return-code / band oracle against bytes actually buffered (fed - unread - arrived) and the read/write/splice results seen by the shim',
+                text='Thousands of pumps with random lengths, chunkings, back-pressure, end of file, write errors and mid-way destruction, in splice mode and in read/write mode (splice probe made to fail), over pipes and UNIX stream sockets; every byte is checked at the output, every call\'s return value, iv_fd_pump_is_done and requested bands are checked, and a pump that neither finishes nor asks for a ready band is reported as a stall.',
+                ref='3 C17', note='Trusted: harness/pump.c (feeder, drainer, conservation arithmetic via FIONREAD), the shim\'s view of the pump\'s own system calls, gcc ASan/UBSan. In splice mode "space remains" is the kernel pipe\'s business and is not second-guessed.'),
+    'C20': dict(cat='exploration', tech='independent parse of the exact bytes read(2) from the inotify descriptor vs. handler entries, replaying handler-driven unregistrations; instance and watches malloc()ed with a fill pattern and freed at once under ASan/UBSan',
+                text='Multi-event reads on files and directories with handlers that unregister their own watch, other watches, all watches or the instance at a planned delivery; every delivery must match the next kernel event that still has a registered watch (same watch, mask, cookie, name), nothing may be delivered after a one-shot / IN_IGNORED drop or an unregistration, and instances that never saw an event are unregistered too.',
+                ref='3 C20', note='Trusted: the parser and replay in harness/inot.c, the shim\'s read(2) hook, gcc ASan/UBSan. Real inotify on the local filesystem of the sandbox.'),
+})
+
 NOT_YET = {
 }
 
